@@ -10,7 +10,7 @@ use std::process::{Child, ChildStdin, ChildStdout, Command, Stdio};
 
 pub static PROP: Prop = Prop {
     id: "C19",
-    rule: "(a) differential: every program is run by this process (built with the rc memory strategy) and by a server process built from the same sources with the arc strategy; stdout, outcome class and error text must be identical. Programs: every runnable corpus item (guide, core-library docs, koto test scripts), proptest-generated core programs (the C01 generator: operators, containers, control flow) and function programs (closures, generators, captures), C14 container histories over aliased containers, C13 iterator pipelines and C15 string batches. (b) atomicity under arc, run inside the arc-built binary: N in {2, 4, 8} threads, each with its own runtime sharing ONE list or map through the prelude, run generated scripts of single-container operations (push / pop / insert / remove / extend / fill / resize / sort / reverse / clear / to_tuple / size / get / contains_key / update ...). Mixes are chosen so that an invariant is checkable: (i) counting: each thread pushes / inserts / extends by K distinct tagged items and nothing removes them: afterwards exactly N x K items, each once (no lost update), also while the other half of the threads reorder the whole container with callback-free operations (list sort / reverse, map sort); (ii) uniform fill: writers only `fill` / `resize ... value` with a per-thread constant while readers take `to_tuple()` snapshots: every snapshot is uniform within the region one operation writes (no partially updated container observed); (iii) paired extend: writers `extend` by a pair (x, x) and readers check every snapshot has even length with equal neighbours; (iv) every language-level read form (index, slice, size, first / last, get, contains, iteration, access, keys) looping against push / pop or insert / remove writers, and mixed mutation storms, with a watchdog: every thread finishes (no deadlock on a single container) and the container is still well-formed (size equals the number of iterated items, map keys unique). Non-trivial: (a) programs that build containers, closures or iterators; (b) every stress run.",
+    rule: "(a) differential: every program is run by this process (built with the rc memory strategy) and by a server process built from the same sources with the arc strategy; stdout, outcome class and error text must be identical. Programs: every runnable corpus item (guide, core-library docs, koto test scripts), proptest-generated core programs (the C01 generator: operators, containers, control flow) and function programs (closures, generators, captures), C14 container histories over aliased containers, C13 iterator pipelines and C15 string batches. (b) atomicity under arc, run inside the arc-built binary: N in {2, 4, 8} threads, each with its own runtime sharing ONE list or map through the prelude, run generated scripts of single-container operations (push / pop / insert / remove / extend / fill / resize / sort / reverse / clear / to_tuple / size / get / contains_key / update ...). Mixes are chosen so that an invariant is checkable: (i) counting: each thread pushes / inserts / extends by K distinct tagged items and nothing removes them: afterwards exactly N x K items, each once (no lost update), also while the other half of the threads reorder the whole container with callback-free operations (list sort / reverse, map sort); (ii) uniform fill: writers only `fill` / `resize ... value` with a per-thread constant while readers take `to_tuple()` snapshots: every snapshot is uniform within the region one operation writes (no partially updated container observed); (iii) paired extend: writers `extend` by a pair through every kind of iterable (tuple, range, string, iterator adaptor, generator) and readers check every snapshot has even length with equal neighbours; (iv) every language-level read form (index, slice, size, first / last, get, contains, iteration, access, keys, `rest...` patterns in match arms and arguments, unpacking) looping against push / pop or insert / remove writers, and mixed mutation storms, with a watchdog: every thread finishes (no deadlock on a single container) and the container is still well-formed (size equals the number of iterated items, map keys unique). Non-trivial: (a) programs that build containers, closures or iterators; (b) every stress run.",
     assumptions: &[
         "the arc build is a second cargo target directory of the same engine crate (features = arc); it is rebuilt from /repo's working tree by ./check C19",
         "stress runs repeat with varied thread counts and mixes; interleavings are explored by repetition, not controlled scheduling (loom / shuttle cannot drive parking_lot locks inside koto without patching it)",
@@ -169,9 +169,21 @@ mod stress {
                     s.push_str(&format!("bad = 0\nfor i in 0..{k}\n  t = shared.to_tuple()\n  if t.any(|x| x != t[0])\n    bad += 1\nexport bad = bad\n"));
                 }
             }
-            "pairs" => {
+            "pairs" | "pairs-range" | "pairs-string" | "pairs-adaptor" | "pairs-generator" => {
                 if tid % 2 == 0 {
-                    s.push_str(&format!("for i in 0..{k}\n  shared.extend ({tid}, {tid})\n"));
+                    // one extend by two equal (or consecutive) items, through every kind of iterable
+                    let arg = match mix {
+                        "pairs" => format!("({tid}, {tid})"),
+                        "pairs-range" => format!("{}..{}", tid * 10, tid * 10 + 2),
+                        "pairs-string" => "'ab'".to_string(),
+                        "pairs-adaptor" => format!("({tid}, {tid}).each |x| x"),
+                        _ => format!("gen2({tid})"),
+                    };
+                    s.push_str(&format!("gen2 = |v|\n  yield v\n  yield v\nfor i in 0..{k}\n  shared.extend {arg}\n"));
+                } else if mix == "pairs-range" {
+                    s.push_str(&format!("bad = 0\nfor i in 0..{k}\n  t = shared.to_tuple()\n  if (size t) % 2 != 0\n    bad += 1\n  else\n    for c in t.chunks 2\n      cc = c.to_tuple()\n      if cc[0] + 1 != cc[1]\n        bad += 1\nexport bad = bad\n"));
+                } else if mix == "pairs-string" {
+                    s.push_str(&format!("bad = 0\nfor i in 0..{k}\n  t = shared.to_tuple()\n  if (size t) % 2 != 0\n    bad += 1\n  else\n    for c in t.chunks 2\n      cc = c.to_tuple()\n      if cc[0] != 'a' or cc[1] != 'b'\n        bad += 1\nexport bad = bad\n"));
                 } else {
                     s.push_str(&format!("bad = 0\nfor i in 0..{k}\n  t = shared.to_tuple()\n  if (size t) % 2 != 0\n    bad += 1\n  else\n    for c in t.chunks 2\n      cc = c.to_tuple()\n      if cc[0] != cc[1]\n        bad += 1\nexport bad = bad\n"));
                 }
@@ -212,9 +224,13 @@ mod stress {
                 if tid % 2 == 0 {
                     s.push_str(&format!("for i in 0..{}\n  shared.push i\n  shared.pop()\n", k * 40));
                 } else {
-                    let forms = ["x = shared[0]", "x = size shared", "x = shared.first()", "x = shared[0..1]", "x = shared.get 0", "x = shared.contains 1", "x = shared.to_tuple()", "x = shared.last()", "for v in shared\n    break", "x = shared[..]", "x = shared.is_empty()", "x = (shared, 1)[0][0]"];
-                    let form = forms[(tid / 2 + (seed as usize % forms.len())) % forms.len()];
-                    s.push_str(&format!("for i in 0..{}\n  {form}\n", k * 40));
+                    let forms = ["x = match shared\n    (first, rest...) then first\n    else null", "x = match shared\n    (init..., last) then last\n    else null", "fu = |(a, others...)| a\n  x = fu shared", "a, b = shared", "x = shared[0]", "x = size shared", "x = shared.first()", "x = shared[0..1]", "x = shared.get 0", "x = shared.contains 1", "x = shared.to_tuple()", "x = shared.last()", "for v in shared\n    break", "x = shared[..]", "x = shared.is_empty()", "x = (shared, 1)[0][0]"];
+                    // four forms per reader: the four readers of an 8-thread run cover all of them
+                    s.push_str(&format!("for i in 0..{}\n", k * 10));
+                    for j in 0..4 {
+                        let form = forms[((tid / 2) * 4 + j + (seed as usize % forms.len())) % forms.len()];
+                        s.push_str(&format!("  {form}\n"));
+                    }
                 }
             }
             "read-forms-map" => {
@@ -379,7 +395,7 @@ mod stress {
                     }
                 }
             }
-            "fill" | "pairs" => {
+            "fill" | "pairs" | "pairs-range" | "pairs-string" | "pairs-adaptor" | "pairs-generator" => {
                 if bad_snapshots > 0 {
                     return json!({"violation": "torn-read", "detail": format!("{bad_snapshots} snapshots showed a partially applied {mix} operation")});
                 }
@@ -413,7 +429,7 @@ mod stress {
     }
 }
 
-pub const MIXES: [&str; 13] = ["reorder-count-list", "reorder-count-map", "count-list", "count-map", "fill", "pairs", "map-update", "storm-list", "storm-map", "extend-count-map", "extend-count-list", "read-forms-list", "read-forms-map"];
+pub const MIXES: [&str; 17] = ["pairs-range", "pairs-string", "pairs-adaptor", "pairs-generator", "reorder-count-list", "reorder-count-map", "count-list", "count-map", "fill", "pairs", "map-update", "storm-list", "storm-map", "extend-count-map", "extend-count-list", "read-forms-list", "read-forms-map"];
 
 fn eval_stress(server: &mut ArcServer, mix: &str, threads: usize, k: usize, seed: u64) -> Eval {
     let mut ev = Eval::pass(true).class(intern(&format!("stress:{mix}")));
